@@ -400,6 +400,8 @@ class NumpyTheory:
             return self.mat_zeros([VInt(z3.simplify(L[q])) for q in range(const_int(st.heap.lists[a0.ref].length))], kw.get('dtype'), st, node)
         if isinstance(a0, VTuple) and len(a0.items) == 2 and isinstance(kw.get('dtype'), VFunc) and kw['dtype'].kind == 'matdtype':
             return self.mat_zeros(a0.items, kw.get('dtype'), st, node)
+        if isinstance(a0, VTuple) and len(a0.items) == 3:
+            return self.mat_zeros(a0.items, kw.get('dtype'), st, node)        # (n, w, p): n x w opaque vectors of length p, all zero
         n = self._shape1(args[0])
         if n is None:
             return None
